@@ -204,6 +204,53 @@ def layOkFields (lay : Layout) (f2h : List (Str × Str)) (pfx : Str) (kvs : List
     layOkFields lay f2h pfx kvs rest
 end
 
+/-- first segment of a dotted header -/
+def headSeg (k : Str) : Str := k.takeWhile (· ≠ '.')
+
+/-- a field together with its value -/
+abbrev SPair := Field × Val
+def nonDefault (p : SPair) : Bool := !isDefault p.1.2.2 p.2
+
+/-- the header segment a field is written under (`field_name_to_header_name`) -/
+def hdr (f2h : List (Str × Str)) (p : SPair) : Str := remap f2h p.1.1
+
+/-- the headers `header_name_to_field_name_with_context` may rewrite -/
+def ctxKeys (sch : Schema) : List Str :=
+  sch.ctxBasic.map Prod.fst ++ (match sch.ctxMain with
+    | some (h, _, _) => [h]
+    | none => [])
+
+/-- the row model itself: field names are distinct header segments, field types in the family -/
+def goodTop : Ty → Bool
+  | .model fs _ _ =>
+    fs.all (fun f => simpleName f.1) && decide ((fs.map (·.1)).Nodup) && goodFields fs
+  | _ => false
+
+/-- `RemapConsistent sch lay v` — the top-level header remaps lead back to the fields, for the
+fields of `v` that are written (non-default): their headers are distinct header segments; a
+field written under its own name is not touched by the context remap (and
+`header_name_to_field_name` keeps it); a field written under a remapped header `m` is found
+again: `header_name_to_field_name_with_context(m, row)` is a header segment that
+`header_name_to_field_name` sends to the field (flow rows: `message_text` ↦ the main argument
+selected by the row's `type` cell). -/
+def RemapConsistent (sch : Schema) (lay : Layout) (v : Val) : Bool :=
+  match sch.top, v with
+  | .model fs h2f f2h, .model kvs =>
+    let nd := (fs.zip (kvs.map Prod.snd)).filter nonDefault
+    match unparseRec lay sch.top v [] [] with
+    | .error _ => false
+    | .ok cells =>
+      decide ((nd.map (hdr f2h)).Nodup) &&
+      nd.all fun p =>
+        let m := remap f2h p.1.1
+        simpleName m &&
+        (if m = p.1.1 then
+          decide (remap h2f p.1.1 = p.1.1) && (ctxKeys sch).all (fun k => headSeg k != p.1.1)
+        else match ctxRemap sch cells m with
+          | .ok pn => simpleName pn && decide (remap h2f pn = p.1.1)
+          | .error _ => false)
+  | _, _ => false
+
 /-- `LayoutOk sch lay v`: nothing excluded, and `layOk` from the root -/
 def LayoutOk (sch : Schema) (lay : Layout) (v : Val) : Bool :=
   lay.excluded.isEmpty && layOk lay sch.top v []
